@@ -2991,6 +2991,10 @@ impl SctpInner {
                 .find_map(|w| w.upgrade().filter(|d| d.id == stream_id))
         };
 
+        // A channel whose Close has been announced to the application receives nothing any
+        // more (data still in flight when the stream was reset is discarded).
+        let dc = dc.filter(|d| d.state.load(Ordering::SeqCst) != DataChannelState::Closed as usize);
+
         if let Some(dc) = dc {
             let b_bit = (flags & 0x02) != 0;
             let e_bit = (flags & 0x01) != 0;
